@@ -804,7 +804,7 @@ func parseScheduledStopTimes(csv *csv.File, stops []Stop, trips []ScheduledTrip)
 		tripID := tripIDColumn.Read()
 		if currentTrip == nil || currentTripID != tripID {
 			thisTrip := idToTrip[tripID]
-			if currentTrip != nil && cap(thisTrip.StopTimes) == 0 {
+			if currentTrip != nil && thisTrip != nil && cap(thisTrip.StopTimes) == 0 {
 				thisTrip.StopTimes = make([]ScheduledStopTime, 0, len(currentTrip.StopTimes))
 			}
 			currentTrip = thisTrip
